@@ -11,7 +11,7 @@ from vmon.libutil import XTCE_NS, monitored, xtce_element
 LEVEL = "exploration"
 SHARDS = {"quick": 16, "thorough": 16}
 MUST = ["int.evaluations", "ieee16.evaluations", "ieee32.evaluations", "ieee64.evaluations", "mil1750a.evaluations",
-        "int_raw.evaluations", "float_raw.evaluations", "route.from_xml", "route.ctor"]
+        "int_raw.evaluations", "float_raw.evaluations", "route.from_xml", "route.ctor", "legacy.spellings", "context-not-applying.cases", "same-raw-object.redecodes"]
 RULE = ("ParameterType.parse_value is executed on packets whose field bits are chosen by the harness; every "
         "execution is compared with an explicit model (two's complement / byte reversal / IEEE-754 "
         "sign-exponent-mantissa arithmetic / 1750A rationals) for value, Python class, raw_value and cursor "
@@ -122,6 +122,83 @@ def int_patterns(n, rng, nrand):
     return out
 
 
+def extras(ctx, types, rng):
+    """(a) tolerated legacy spellings 'IEEE-754' / 'MIL-1750A' decode like the canonical ones; (b) an integer encoding with
+    context calibrators none of which applies (and no default) stays an exact integer; (c) decoding twice from the SAME
+    RawPacketData object (each time through a new CCSDSPacket) gives the same value and the cursor starts at 0 again."""
+    import warnings
+    from space_packet_parser import common, packets
+    from space_packet_parser.xtce import calibrators, comparisons, encodings, parameter_types
+    # (a) legacy spellings
+    for legacy, canon, n in (("IEEE-754", "IEEE754", 32), ("IEEE-754", "IEEE754", 64), ("MIL-1750A", "MILSTD_1750A", 32)):
+        for little in (False, True):
+            for route in ("ctor", "from_xml"):
+                with warnings.catch_warnings():
+                    warnings.simplefilter("ignore")
+                    if route == "ctor":
+                        t = parameter_types.FloatParameterType("T", encodings.FloatDataEncoding(n, encoding=legacy, byte_order=BO[little]))
+                    else:
+                        xml = (f'<xtce:FloatParameterType xmlns:xtce="{XTCE_NS}" name="T"><xtce:UnitSet/><xtce:FloatDataEncoding '
+                               f'sizeInBits="{n}" encoding="{legacy}" byteOrder="{BO[little]}"/></xtce:FloatParameterType>')
+                        t = parameter_types.FloatParameterType.from_xml(xtce_element(xml))
+                types.cache[("float", n, canon + "/legacy", little, route)] = t
+                for _ in range(40):
+                    pat = rng.choice([0x40000000, 0x7FFFFF7F, 0x3FC00000, rng.getrandbits(n)]) & ((1 << n) - 1)
+                    ctx.count("legacy.spellings")
+                    check_one_with(ctx, t, "float", n, canon, little, rng.randrange(8), bits.to_bits(pat, n), "legacy", rng, route)
+    # (b) context calibrators that do not apply, no default: the value is the exact integer
+    never = calibrators.ContextCalibrator([comparisons.Comparison("1", "FLAG", "==", use_calibrated_value=False)],
+                                          calibrators.PolynomialCalibrator([calibrators.PolynomialCoefficient(2.0, 1)]))
+    for n in (8, 16, 33, 54, 64, 70):
+        for enc in ("unsigned", "twosComplement"):
+            e = encodings.IntegerDataEncoding(n, enc, context_calibrators=[never])
+            t = parameter_types.IntegerParameterType("T", e)
+            for pat in ((1 << n) - 1, (1 << (n - 1)) + 1, (1 << 53) + 1 if n > 54 else 5, rng.getrandbits(n)):
+                pat &= (1 << n) - 1
+                fb = bits.to_bits(pat, n)
+                pkt = make_packet(fb, 0, rng)
+                pkt["FLAG"] = common.IntParameter(0)
+                step = monitored(t.parse_value, pkt)
+                exp = bits.int_field(fb, enc, False)
+                ctx.count("evaluations")
+                ctx.count("context-not-applying.cases")
+                ctx.sig("int", n, enc, "ctx-not-applying")
+                if step.exc is not None or type(step.value) is not common.IntParameter or int(step.value) != exp:
+                    ctx.violation(f"context-not-applying/{'exception' if step.exc else 'class' if type(step.value) is not common.IntParameter else 'value'}",
+                                  f"{n}-bit {enc} with a non-applying context calibrator and no default: got {step.value!r} ({type(step.value).__name__}) / {step.exc!r}, expected IntParameter {exp}",
+                                  {"n": n, "encoding": enc, "field_bits": fb})
+    # (c) the same RawPacketData object decoded twice
+    for n, enc in ((16, "unsigned"), (32, "twosComplement"), (5, "unsigned")):
+        t = types.get("int", n, enc, False, "ctor")
+        for _ in range(20):
+            raw = packets.create_ccsds_packet(bytes(rng.getrandbits(8) for _ in range(8)), apid=rng.randrange(2048))
+            results = []
+            for attempt in range(3):
+                pkt = packets.CCSDSPacket(raw_data=raw)          # same raw object every time
+                step = monitored(t.parse_value, pkt)
+                results.append((step.value, pkt.raw_data.pos, repr(step.exc)))
+            exp = bits.int_field(bits.bitstr(bytes(raw))[:n], enc, False)
+            ctx.count("evaluations")
+            ctx.count("same-raw-object.redecodes")
+            ctx.sig("int", n, enc, "redecode-same-raw-object")
+            if any(r[2] != "None" or r[0] != exp or r[1] != n for r in results):
+                ctx.violation("redecode/same-raw-object", f"decoding a {n}-bit field three times from the same RawPacketData object gave {results}, expected value {exp} and cursor {n} each time",
+                              {"n": n, "results": results})
+
+
+def check_one_with(ctx, t, kind, n, enc, little, offset, fieldbits, pclass, rng, route):
+    """like check_one but with a prepared parameter type"""
+    class _T:
+        cache = {}
+
+        def __init__(self, t):
+            self.t = t
+
+        def get(self, *a):
+            return self.t
+    check_one(ctx, _T(t), kind, n, enc, little, offset, fieldbits, pclass, rng, route)
+
+
 def run(ctx):
     bits.selftest()
     contracts.arm_numeric(ctx)
@@ -196,6 +273,7 @@ def run(ctx):
                 check_one(ctx, types, "float", 32, "MILSTD_1750A", little, (e + mi) % 8, bits.to_bits(pat, 32),
                           pclass, rng, "ctor" if mi & 1 else "from_xml")
     ctx.exhaustive_space("1750A exponents(256) x 64 mantissas x {BE,LE}", 1)
+    extras(ctx, types, rng)
     ctx.sample({"kind": "int", "n": 13, "encoding": "twosComplement", "offset": 3, "field_bits": "1000000000001",
                 "model_value": bits.int_field("1000000000001", "twosComplement", False)})
     ctx.sample({"kind": "float", "n": 16, "encoding": "IEEE754", "little": True, "field_bits": bits.to_bits(0x01FC, 16),
